@@ -42,13 +42,20 @@ RULE = ("Hypothesis-generated expression trees (<=3 dims, <=2 symbols; +, - in b
         "unused dims, drop_results, inverse_permutation, inverse_and_broadcast_projected_permutation, "
         "apply_permutation, identity/minor_identity/transpose/constant/point maps, from_flat_form. "
         "Non-trivial: some tree of the recipe has depth >= 3 and a floordiv/ceildiv/mod below an "
-        "add/sub/mul/neg node.")
+        "add/sub/mul/neg node (for compose/replace also: a div/mod in the outer map over a non-leaf "
+        "inner expression). `int - expr` (known finding F-C26-1) is left out of the main search by "
+        "construction and probed by the *_with_rsub sub-checks with a fixed quota.")
 ASSUMPTIONS = [
     "Python integer //, % (floor division, non-negative remainder for a positive divisor) are the "
     "documented semantics of floordiv/mod (flattener docstrings: c*q <= expr <= c*q + c - 1); "
     "ceildiv c = (expr + c - 1) floordiv c",
     "agreement on the finite box is taken as agreement of values (no symbolic proof)",
     "NotImplementedError (semi-affine forms) is a documented limitation, not a violation",
+    "any other exception raised from inside xdsl by one of the listed operations on a valid input, or "
+    "by eval of its result, counts as not preserving the value",
+    "structurally equal expressions (dataclass ==) evaluate equally, so a re-parsed / dropped map "
+    "that is == to an already compared one is not evaluated again",
+    "operand convention of affine.load map operands: dims first, then symbols (as lower-affine reads them)",
 ]
 
 EE = ("add", "sub", "mulx")
@@ -381,7 +388,11 @@ def check_build(out: Out, trees, nd, ns) -> list | None:
             culprit, cd = t, first_diff(got, exp, pts)
             for s in subtrees(t):
                 es = build(s)
-                gs, xs = xeval(es, pts), ref(s, D, S, n)
+                xs = ref(s, D, S, n)
+                try:
+                    gs = xeval(es, pts)
+                except CUT_ERRORS as ex:
+                    gs = [repr(ex)] * n
                 if gs != xs:
                     culprit, cd = s, f"{s!r} built as {es}: " + first_diff(gs, xs, pts)
                     break
@@ -450,7 +461,11 @@ def minimal_simplify_failure(expr, nd, ns, pts) -> str:
             s = sub.simplify(nd, ns)
         except (NotImplementedError, AssertionError, ValueError, IndexError, TypeError):
             continue
-        if xeval(s, pts) != xeval(sub, pts):
+        try:
+            differs = xeval(s, pts) != xeval(sub, pts)
+        except CUT_ERRORS:
+            differs = True
+        if differs:
             return sub.kind.name
     return expr.kind.name if isinstance(expr, AffineBinaryOpExpr) else type(expr).__name__
 
@@ -614,19 +629,18 @@ def _drop_dims(out, amap, trees, refs, nd, ns, mask):
 
 def _drop_results(out, amap, trees, refs, nd, ns, rmask):
     pts, D, S, n = box(nd, ns)
-    if True:
-        m3 = amap.drop_results(rmask)
-        keepr = [i for i in range(len(trees)) if not rmask[i]]
-        if (m3.num_dims, m3.num_symbols, len(m3.results)) != (nd, ns, len(keepr)):
-            out.add({"check": "drop_results", "kind": "shape"}, f"{amap}.drop_results({rmask}) = {m3}")
-        elif m3.results == tuple(amap.results[i] for i in keepr):
-            pass  # exactly the kept result expressions, whose values are already compared
-        else:
-            got = [m3.eval(d, s) for d, s in pts]
-            exp = list(zip(*[refs[i] for i in keepr])) if keepr else [()] * n
-            if got != exp:
-                out.add({"check": "drop_results", "kind": "value"},
-                        f"{amap}.drop_results({rmask}) = {m3}: " + first_diff(got, exp, pts))
+    m3 = amap.drop_results(rmask)
+    keepr = [i for i in range(len(trees)) if not rmask[i]]
+    if (m3.num_dims, m3.num_symbols, len(m3.results)) != (nd, ns, len(keepr)):
+        out.add({"check": "drop_results", "kind": "shape"}, f"{amap}.drop_results({rmask}) = {m3}")
+    elif m3.results == tuple(amap.results[i] for i in keepr):
+        pass  # exactly the kept result expressions, whose values are already compared
+    else:
+        got = [m3.eval(d, s) for d, s in pts]
+        exp = list(zip(*[refs[i] for i in keepr])) if keepr else [()] * n
+        if got != exp:
+            out.add({"check": "drop_results", "kind": "value"},
+                    f"{amap}.drop_results({rmask}) = {m3}: " + first_diff(got, exp, pts))
 
 
 # ----------------------------------------------------------------------------------------------
